@@ -12,6 +12,7 @@ import (
 
 	"github.com/tobgu/qframe"
 	"github.com/tobgu/qframe/config/csv"
+	"github.com/tobgu/qframe/config/eval"
 	"github.com/tobgu/qframe/config/groupby"
 	"github.com/tobgu/qframe/config/newqf"
 	"github.com/tobgu/qframe/config/rolling"
@@ -189,7 +190,107 @@ func genHostileExpr(t *rapid.T, depth int) (interface{}, string) {
 }
 
 func genChainOp(t *rapid.T, healthyPossible bool) chainOp {
-	switch rapid.IntRange(0, 32).Draw(t, "op") {
+	switch rapid.IntRange(0, 33).Draw(t, "op") {
+	case 33:
+		// entry points with an error return of their own (typed views, eval.Context.SetFunc) and type mismatches of
+		// two-argument functions on the column types that the other curated misuses do not reach
+		k := rapid.IntRange(0, 3).Draw(t, "misc")
+		temps := func(qf qframe.QFrame) qframe.QFrame {
+			return qf.Apply(qframe.Instruction{Fn: 1, DstCol: "ti"}, qframe.Instruction{Fn: 1.5, DstCol: "tf"},
+				qframe.Instruction{Fn: "x", DstCol: "ts"}, qframe.Instruction{Fn: true, DstCol: "tb"})
+		}
+		switch k {
+		case 0:
+			unknown := rapid.Bool().Draw(t, "viewunknown")
+			return chainOp{desc: fmt.Sprintf("typed views of an unknown (%v) or differently typed column", unknown), run: func(qf qframe.QFrame) qframe.QFrame {
+				tq := temps(qf)
+				name := func(wrongTyped string) string {
+					if unknown {
+						return "never-created-col"
+					}
+					return wrongTyped
+				}
+				if _, err := tq.IntView(name("tf")); err == nil {
+					panic("VIOLATION: IntView of an unknown/float column returned no error")
+				}
+				if _, err := tq.FloatView(name("ti")); err == nil {
+					panic("VIOLATION: FloatView of an unknown/int column returned no error")
+				}
+				if _, err := tq.BoolView(name("ts")); err == nil {
+					panic("VIOLATION: BoolView of an unknown/string column returned no error")
+				}
+				if _, err := tq.StringView(name("tb")); err == nil {
+					panic("VIOLATION: StringView of an unknown/bool column returned no error")
+				}
+				if _, err := tq.EnumView(name("ts")); err == nil {
+					panic("VIOLATION: EnumView of an unknown/string column returned no error")
+				}
+				return qf
+			}}
+		case 1:
+			j := rapid.IntRange(0, 4).Draw(t, "setfunc")
+			return chainOp{desc: fmt.Sprintf("eval.Context.SetFunc misuse %d, then Eval of the function that was not registered", j), mustErr: true, run: func(qf qframe.QFrame) qframe.QFrame {
+				ctx := eval.NewDefaultCtx()
+				var err error
+				name := "notregistered"
+				switch j {
+				case 0:
+					name = "'q'"
+					err = ctx.SetFunc(name, func(x int) int { return x })
+				case 1:
+					err = ctx.SetFunc(name, func(s string) string { return s })
+				case 2:
+					err = ctx.SetFunc(name, 5)
+				case 3:
+					err = ctx.SetFunc(name, nil)
+				default:
+					err = ctx.SetFunc(name, func(x, y, z int) int { return x })
+				}
+				if err == nil {
+					panic("VIOLATION: SetFunc accepted an illegal name or a function type it cannot call")
+				}
+				return temps(qf).Eval("n1", qframe.Expr(name, types.ColumnName("ti")), eval.EvalContext(ctx))
+			}}
+		case 2:
+			j := rapid.IntRange(0, 4).Draw(t, "apply2mismatch")
+			return chainOp{desc: fmt.Sprintf("Apply with a two-argument function of another column type (%d)", j), mustErr: true, run: func(qf qframe.QFrame) qframe.QFrame {
+				tq := temps(qf)
+				switch j {
+				case 0:
+					return tq.Apply(qframe.Instruction{Fn: hx.Int2, DstCol: "n1", SrcCol1: "tb", SrcCol2: "tb"})
+				case 1:
+					return tq.Apply(qframe.Instruction{Fn: hx.Str2, DstCol: "n1", SrcCol1: "tf", SrcCol2: "tf"})
+				case 2:
+					return tq.Apply(qframe.Instruction{Fn: hx.Int2, DstCol: "n1", SrcCol1: "ts", SrcCol2: "ts"})
+				case 3:
+					return tq.Apply(qframe.Instruction{Fn: "ToUpper", DstCol: "n1", SrcCol1: "ts", SrcCol2: "ts"})
+				}
+				return tq.Apply(qframe.Instruction{Fn: func(a, b bool) int { return 0 }, DstCol: "n1", SrcCol1: "tb", SrcCol2: "tb"})
+			}}
+		default:
+			j := rapid.IntRange(0, 4).Draw(t, "enummisuse")
+			return chainOp{desc: fmt.Sprintf("enum column misuse %d (falls back to a string column when e1/e2 are gone)", j), mustErr: true, run: func(qf qframe.QFrame) qframe.QFrame {
+				tq := temps(qf)
+				a, b := "ts", "ts"
+				if tq.Err == nil {
+					tm := tq.ColumnTypeMap()
+					if tm["e1"] == types.Enum && tm["e2"] == types.Enum {
+						a, b = "e1", "e2"
+					}
+				}
+				switch j {
+				case 0:
+					return tq.Filter(qframe.Filter{Column: a, Comparator: "nosuchcomparator", Arg: types.ColumnName(b)})
+				case 1:
+					return tq.Filter(qframe.Filter{Column: a, Comparator: "<", Arg: types.ColumnName("ti")})
+				case 2:
+					return tq.Apply(qframe.Instruction{Fn: hx.Int2, DstCol: "n1", SrcCol1: a, SrcCol2: b})
+				case 3:
+					return tq.Apply(qframe.Instruction{Fn: "ToUpper", DstCol: "n1", SrcCol1: a, SrcCol2: b})
+				}
+				return tq.Filter(qframe.Filter{Column: a, Comparator: "in", Arg: []int{1, 2}})
+			}}
+		}
 	case 32:
 		// constants of Go types the expression language does not have (only int, float64, bool, string/*string are
 		// constants): an unsupported argument type wherever it stands, never a silently converted value
@@ -809,7 +910,7 @@ func TestC10(t *testing.T) {
 	rapid.Check(t, func(t *rapid.T) {
 		base := c10Base(t)
 		var qf qframe.QFrame
-		start := rapid.IntRange(0, 14).Draw(t, "start")
+		start := rapid.IntRange(0, 16).Draw(t, "start")
 		startDesc := "derived frame"
 		switch start {
 		case 0:
@@ -846,11 +947,16 @@ func TestC10(t *testing.T) {
 		case 6:
 			qf = qframe.ReadCSV(strings.NewReader("a,b\n1,2\n"), csv.Types(map[string]string{"a": "int"}), csv.EnumValues(map[string][]string{"a": {"1"}}))
 			startDesc = "ReadCSV with enum values for a column declared int"
+		case 7:
+			doc := rapid.SampledFrom([]string{`[{"a":1},{"a":"x"}]`, `[{"a":1,"b":true},{"a":1}]`, `[{"a":[1]}]`, `[{"a":{"b":1}}]`, `[1,2]`, `{"a":1}`, `[{"a":true},{"a":1}]`,
+				`[{"a":"x"},{"a":null},{"a":3}]`, `[{"a":null},{"a":1}]`, `[{"a":"x"},{"a":true}]`}).Draw(t, "jsondoc")
+			qf = qframe.ReadJSON(strings.NewReader(doc))
+			startDesc = "ReadJSON of records whose values do not form typed columns: " + doc
 		default:
 			d := hx.GenDerived(t, base, 3)
 			qf = d.QF
 		}
-		if start <= 6 && qf.Err == nil {
+		if start <= 7 && qf.Err == nil {
 			t.Fatalf("%s did not report an error", startDesc)
 		}
 		nops := rapid.IntRange(1, 8).Draw(t, "nops")
